@@ -73,13 +73,13 @@ def project(case, obs):
     if len(case["vals"]) <= 12:
         return obs
     prio = set(case["prio"])
-    nmp, p, np_, capped, shaped = obs
+    nmp, p, np_, capped, shaped, composed = obs
     return [sorted(x[1] for x in nmp), sorted(map(tuple, p), key=lambda x: (-x[1], x[0])) and _insens(p, prio),
-            _insens(np_, prio), _insens(capped, prio), sorted(x[1] for x in shaped)]
+            _insens(np_, prio), _insens(capped, prio), sorted(x[1] for x in shaped), sorted(x[1] for x in composed)]
 
 
 def nontrivial(case, inp, obs):
-    nmp, p, np_, capped, shaped = obs
+    nmp, p, np_, capped, shaped, composed = obs
     changed = (len(capped) != len(case["vals"])) or sorted(x[1] for x in shaped) != sorted(x[1] for x in capped)
     if not changed:
         return None
@@ -91,7 +91,12 @@ CLAUSES = {1: "power cap changed the validator identities", 2: "a capped power e
            3: "total power not preserved although achievable", 4: "a validator was reduced below 1",
            5: "relative order by power not preserved", 6: "cap not achievable but powers are not all equal to max(floor,1)",
            7: "more validators than the validator-set cap", 8: "a validator not in the eligible list (or with changed power) in the capped set",
-           9: "an excluded eligible validator outranks an included one", 10: "capped set smaller than min(cap, eligible)"}
+           9: "an excluded eligible validator outranks an included one", 10: "capped set smaller than min(cap, eligible)",
+           11: "ComputeNextValidators: power cap changed the identities of the final set", 12: "ComputeNextValidators: a power exceeds floor(p% of the final set's total) although achievable",
+           13: "ComputeNextValidators: total power of the final set not preserved by the power cap", 14: "ComputeNextValidators: a validator reduced below 1",
+           15: "ComputeNextValidators: relative order by power not preserved", 16: "ComputeNextValidators: cap not achievable but powers not all equal",
+           17: "ComputeNextValidators: more validators than the validator-set cap", 18: "ComputeNextValidators: non-eligible validator in the set",
+           19: "ComputeNextValidators: an excluded eligible validator outranks an included one", 20: "ComputeNextValidators: set smaller than min(cap, eligible)"}
 
 
 def describe(codes):
